@@ -180,8 +180,23 @@ def run(ctx):
                 if tag(at) == "op" and payload(at)[0] == "gt" and len(kids(at)) == 2 and kids(at)[1] == other:
                     grew = o
             r = N(ix, sym.unwrap(p.ret))
+            # is the requested amount known to be zero / non-zero on this path?
+            amt_zero = None
+            for (at, o, _b, _l) in p.conds:
+                at_ = ix.inline(at)
+                if tag(at_) == "op" and payload(at_)[0] == "is_zero" and kids(at_)[0] == amount and o in (True, False):
+                    amt_zero = o
+                if tag(at_) == "op" and payload(at_)[0] in ("eq", "ne") and amount in kids(at_) and o in (True, False) and \
+                        any(tag(k) == "int" and payload(k)[0] == "0" for k in kids(at_)):
+                    amt_zero = (payload(at_)[0] == "eq") == o
             if r == ("int", 0):
-                continue  # zero amount
+                # the zero-amount shortcut: nothing is exchanged for nothing - and only for nothing
+                if amt_zero is not True:
+                    bad = bad or "a path answers 0 although the requested amount is not established to be zero"
+                continue
+            if amt_zero is True:
+                bad = bad or "the priced result is computed only when the requested amount IS zero"
+                continue
             if rem_nz is False and d is None:
                 # no correction on this path: the result does not depend on the direction beyond side'; take the direction
                 # that makes side' match (an early return before the direction is looked at)
